@@ -82,6 +82,103 @@ fn macro_case(idx: usize) -> Option<(&'static str, Bdd, Bdd)> {
 }
 const MACRO_CASES: usize = 38;
 
+
+// ------------------------------------------------------------------------------------------------
+// expressions whose evaluation passes through Bdds with more than 2^16 nodes (pointers beyond 16 bits)
+
+fn xv(i: usize) -> Box<BooleanExpression> { Box::new(Variable(format!("x_{}", i))) }
+fn fold_right(mut items: Vec<BooleanExpression>, mk: fn(Box<BooleanExpression>, Box<BooleanExpression>) -> BooleanExpression) -> BooleanExpression {
+    let mut acc = items.pop().unwrap();
+    while let Some(x) = items.pop() { acc = mk(Box::new(x), Box::new(acc)); }
+    acc
+}
+/// (number of variables, expression) of a family
+fn big_family(family: &str, p: usize) -> (usize, BooleanExpression) {
+    match family {
+        // (x_0 & x_p) | (x_1 & x_{p+1}) | …   all first halves before all second halves: 2^(p+1) nodes
+        "pairs" => (2 * p, fold_right((0..p).map(|i| And(xv(i), xv(p + i))).collect(), |a, b| Or(a, b))),
+        // the CNF dual
+        "cnf" => (2 * p, fold_right((0..p).map(|i| Or(xv(i), xv(p + i))).collect(), |a, b| And(a, b))),
+        // multiplexer, data inputs x_0..x_{p-1} BEFORE the k address bits, as a sum of products; then <=> z, ^ x_0
+        "muxsop" => {
+            let k = (0..).find(|k| (1usize << k) >= p).unwrap();
+            let terms: Vec<BooleanExpression> = (0..p).map(|i| {
+                let mut lits: Vec<BooleanExpression> = (0..k).map(|j| if (i >> j) & 1 == 1 { *xv(p + j) } else { Not(xv(p + j)) }).collect();
+                lits.push(*xv(i));
+                fold_right(lits, |a, b| And(a, b))
+            }).collect();
+            let m = fold_right(terms, |a, b| Or(a, b));
+            (p + k + 1, Xor(Box::new(Iff(Box::new(m), xv(p + k))), xv(0)))
+        }
+        // the same multiplexer as nested conditionals (most significant address bit outermost), then ^ z
+        "muxcond" => {
+            let k = (0..).find(|k| (1usize << k) >= p).unwrap();
+            fn go(lo: usize, bit: usize, p: usize) -> BooleanExpression {
+                if bit == 0 { return if lo < p { *xv(lo) } else { Const(false) }; }
+                let half = 1usize << (bit - 1);
+                Cond(xv(p + bit - 1), Box::new(go(lo + half, bit - 1, p)), Box::new(go(lo, bit - 1, p)))
+            }
+            (p + k + 1, Xor(Box::new(go(0, k, p)), xv(p + k)))
+        }
+        // equality of two p-bit vectors, first vector before the second: x_i <=> x_{p+i}
+        "equal" => (2 * p, fold_right((0..p).map(|i| Iff(xv(i), xv(p + i))).collect(), |a, b| And(a, b))),
+        _ => panic!("family {}", family),
+    }
+}
+/// deterministic printer with the fewest parentheses the documented precedence allows
+fn tight_print(e: &BooleanExpression, ctx: u32, o: &mut String) {
+    let lvl = match e { Iff(..) => 6, Imp(..) => 5, Cond(..) => 4, Or(..) => 3, And(..) => 2, Xor(..) => 1, _ => 0 };
+    let paren = lvl > ctx;
+    if paren { o.push('('); }
+    match e {
+        Const(b) => o.push_str(if *b { "true" } else { "false" }),
+        Variable(n) => o.push_str(n),
+        Not(a) => { o.push('!'); tight_print(a, 0, o); }
+        Iff(l, r) => { tight_print(l, 5, o); o.push_str(" <=> "); tight_print(r, 6, o); }
+        Imp(l, r) => { tight_print(l, 4, o); o.push_str(" => "); tight_print(r, 5, o); }
+        Cond(p, q, r) => { tight_print(p, 3, o); o.push_str(" ? "); tight_print(q, 3, o); o.push_str(" : "); tight_print(r, 3, o); }
+        Or(l, r) => { tight_print(l, 2, o); o.push_str(" | "); tight_print(r, 3, o); }
+        And(l, r) => { tight_print(l, 1, o); o.push_str(" & "); tight_print(r, 2, o); }
+        Xor(l, r) => { tight_print(l, 0, o); o.push_str(" ^ "); tight_print(r, 1, o); }
+    }
+    if paren { o.push(')'); }
+}
+/// the method chain: the harness's own walk over the tree calling the `Bdd` methods
+fn chain(vars: &BddVariableSet, e: &BooleanExpression) -> Bdd {
+    match e {
+        Const(b) => if *b { vars.mk_true() } else { vars.mk_false() },
+        Variable(n) => vars.mk_var_by_name(n),
+        Not(a) => chain(vars, a).not(),
+        And(l, r) => { let (a, b) = (chain(vars, l), chain(vars, r)); a.and(&b) }
+        Or(l, r) => { let (a, b) = (chain(vars, l), chain(vars, r)); a.or(&b) }
+        Xor(l, r) => { let (a, b) = (chain(vars, l), chain(vars, r)); a.xor(&b) }
+        Imp(l, r) => { let (a, b) = (chain(vars, l), chain(vars, r)); a.imp(&b) }
+        Iff(l, r) => { let (a, b) = (chain(vars, l), chain(vars, r)); a.iff(&b) }
+        Cond(p, q, r) => { let (a, b, c) = (chain(vars, p), chain(vars, q), chain(vars, r)); Bdd::if_then_else(&a, &b, &c) }
+    }
+}
+/// number of expression nodes `to_boolean_expression` keeps alive in its `results` vector (it clones
+/// the sub-expressions of both children into every node): decides whether the export is affordable
+fn export_cost(b: &Bdd) -> u64 {
+    let nodes = b.clone().to_nodes();
+    let mut size: Vec<u64> = vec![1, 1];
+    let mut total: u64 = 0;
+    for nd in nodes.iter().skip(2) {
+        let (l, h) = (nd.low_link.to_index(), nd.high_link.to_index());
+        let s = 4u64.saturating_add(if l < 2 { 0 } else { size[l] }).saturating_add(if h < 2 { 0 } else { size[h] });
+        size.push(s);
+        total = total.saturating_add(s);
+    }
+    total
+}
+fn same_or(b: &Option<Bdd>, reference: &Option<Bdd>) -> String {
+    match (b, reference) {
+        (None, _) => s("panic"),
+        (Some(x), Some(r)) if x == r => s("="),
+        (Some(x), _) => fmt_bdd(x),
+    }
+}
+
 fn opt_bdd(r: Option<Option<Bdd>>) -> String {
     match r { None => s("panic"), Some(None) => s("none"), Some(Some(b)) => fmt_bdd(&b) }
 }
@@ -118,6 +215,32 @@ pub fn run(key: &str, a: &[String], out: &mut Out) {
                     out.case(key, a, &[sexp(&e), opt_bdd(direct), opt_bdd(reparsed)]);
                 }
             }
+        }
+        // family p n text => Bdd of eval_expression_string(text); method chain; parse(print(parse(text))) evaluated;
+        // export -> print -> parse -> eval of the result   (each `=` when identical to the first, `skip` when the
+        // export would need more than 40 M expression nodes)
+        "C15.big" => {
+            let p: usize = a[1].parse().unwrap();
+            let (n, e) = big_family(&a[0], p);
+            assert_eq!(n.to_string(), a[2]);
+            let text = dec(&a[3]);
+            let vars = BddVariableSet::new_anonymous(n as u16);
+            let first = catch(|| vars.eval_expression_string(&text));
+            let second = catch(|| chain(&vars, &e));
+            let third = catch(|| {
+                let parsed = BooleanExpression::try_from(text.as_str()).unwrap();
+                let reparsed = BooleanExpression::try_from(format!("{}", parsed).as_str()).unwrap();
+                vars.eval_expression(&reparsed)
+            });
+            let fourth = match &first {
+                Some(b) if export_cost(b) <= 40_000_000 => same_or(&catch(|| {
+                    let ex = b.to_boolean_expression(&vars);
+                    vars.eval_expression_string(&format!("{}", ex))
+                }), &first),
+                Some(_) => s("skip"),
+                None => s("panic"),
+            };
+            out.case(key, a, &[fmt_res_bdd(&first), same_or(&second, &first), same_or(&third, &first), fourth]);
         }
         // idx meaning => equal? macro-value chain-value
         "C15.macro" => {
@@ -261,6 +384,18 @@ pub fn gen(tier: Tier, rng: &mut Rng64, out: &mut Out) {
             let v = noncanon_variant(rng, &b);
             run("C15.export", &[names_field(&anon(n)), fmt_bdd(&v)], out);
         }
+    }
+    // --- evaluation through Bdds with more than 2^16 nodes (pointer values beyond 16 bits in the memo keys)
+    let mut big: Vec<(&str, usize)> = vec![("pairs", 17), ("cnf", 17), ("muxsop", 16), ("pairs", 16), ("pairs", 10), ("equal", 8), ("muxcond", 8)];
+    if thorough {
+        big.extend_from_slice(&[("pairs", 18), ("cnf", 16), ("cnf", 18), ("muxcond", 16), ("muxsop", 17), ("muxcond", 19),
+            ("equal", 16), ("equal", 11), ("muxsop", 8), ("cnf", 10)]);
+    }
+    for (family, p) in big {
+        let (n, e) = big_family(family, p);
+        let mut text = String::new();
+        tight_print(&e, 6, &mut text);
+        run("C15.big", &[s(family), p.to_string(), n.to_string(), enc(&text)], out);
     }
     // --- malformed diagrams reaching the `panic!` arm / the indexing panics (model agreement only)
     for bad in ["|1,0,0|1,1,1|0,1,1|", "|1,0,0|1,1,1|0,0,0|", "|2,0,0|2,1,1|1,0,1|0,2,2|", "|2,0,0|2,1,1|1,0,1|0,1,3|",
